@@ -77,6 +77,7 @@ fn gen_stream(stream: &str, n: u64, seed: u64) {
             for _ in 0..n { for name in &names { let prefix = if kind == "rep" { "rep 20".to_string() } else { "call".to_string() }; writeln!(w, "{}", call::gen_call_line(&mut r, name, &prefix)).unwrap(); } }
         }
         "re" => for _ in 0..n { writeln!(w, "{}", re::gen_re_line(&mut r)).unwrap(); },
+        "nd" => for _ in 0..n { writeln!(w, "{}", call::gen_nd_line(&mut r)).unwrap(); },
         "relaw" => for _ in 0..n { writeln!(w, "{}", re::gen_relaw_line(&mut r)).unwrap(); },
         "ord" => for _ in 0..n { let a = gen::gen_val(&mut r, 2); let b = if r.chance(1, 6) { a.clone() } else { gen::gen_val(&mut r, 2) }; let c = if r.chance(1, 6) { b.clone() } else { gen::gen_val(&mut r, 2) };
             writeln!(w, "ord {} {} {}", show_in(&a), show_in(&b), show_in(&c)).unwrap(); },
